@@ -20,7 +20,8 @@ pub assume_specification<P: Pattern> [str::rfind] (s: &str, p: P) -> (r: Option<
 
 #[verifier::allow(undeclared_external_trait)]
 pub assume_specification<P: Pattern> [str::starts_with] (s: &str, p: P) -> (r: bool)
-    ensures pat_as_char(p) matches Some(c) ==> r == (s@.len() > 0 && s@[0] == c);
+    ensures pat_as_char(p) matches Some(c) ==> r == (s@.len() > 0 && s@[0] == c),
+            pat_as_str(p) matches Some(t) ==> r == t.is_prefix_of(s@);
 #[verifier::allow(undeclared_external_trait)]
 pub assume_specification<P: Pattern> [str::ends_with] (s: &str, p: P) -> (r: bool)
     where for<'a> <P as Pattern>::Searcher<'a>: ReverseSearcher<'a>
@@ -84,3 +85,36 @@ fn verif_rsplitn<'a>(s: &'a str, n: usize, c: char) -> (r: std::vec::IntoIter<&'
 // a str value is determined by its characters (needed for string-literal patterns, which compare str values)
 pub axiom fn axiom_str_ext(a: &str, b: &str)
     ensures a@ == b@ ==> a == b;
+// ---- String/str comparisons, string patterns, byte length (used by MemoryFS::read_dir)
+pub uninterp spec fn pat_as_str<P>(p: P) -> Option<Seq<char>>;
+pub broadcast axiom fn axiom_pat_string_ref(s: &String)
+    ensures #[trigger] pat_as_str::<&String>(s) == Some(s@);
+pub broadcast axiom fn axiom_pat_str(s: &str)
+    ensures #[trigger] pat_as_str::<&str>(s) == Some(s@);
+pub broadcast axiom fn axiom_pat_char_not_str(c: char)
+    ensures #[trigger] pat_as_str::<char>(c) is None;
+#[verifier::allow(undeclared_external_trait)]
+pub assume_specification<P: Pattern> [str::contains] (s: &str, p: P) -> (r: bool)
+    ensures pat_as_char(p) matches Some(c) ==> r == s@.contains(c);
+pub assume_specification [std::string::String::len] (s: &std::string::String) -> (r: usize)
+    ensures r == encode_utf8(s@).len();
+pub axiom fn axiom_string_str_eq_obeys() ensures <String as vstd::std_specs::cmp::PartialEqSpec<str>>::obeys_eq_spec();
+pub broadcast axiom fn axiom_string_str_eq(a: String, b: &str)
+    ensures #[trigger] <String as vstd::std_specs::cmp::PartialEqSpec<str>>::eq_spec(&a, b) == (a@ == b@);
+// rule R7 targets: concatenation of string-like Display values
+#[verifier::external_body]
+fn verif_concat2(a: &str, b: &str) -> (r: String)
+    ensures r@ == a@ + b@
+{ format!("{}{}", a, b) }
+#[verifier::external_body]
+fn verif_concat3(a: &str, b: &str, c: &str) -> (r: String)
+    ensures r@ == a@ + b@ + c@
+{ format!("{}{}{}", a, b, c) }
+#[verifier::external_body]
+fn verif_concat4(a: &str, b: &str, c: &str, d: &str) -> (r: String)
+    ensures r@ == a@ + b@ + c@ + d@
+{ format!("{}{}{}{}", a, b, c, d) }
+#[verifier::external_body]
+fn verif_concat5(a: &str, b: &str, c: &str, d: &str, e: &str) -> (r: String)
+    ensures r@ == a@ + b@ + c@ + d@ + e@
+{ format!("{}{}{}{}{}", a, b, c, d, e) }
